@@ -39,6 +39,12 @@ pub(crate) fn run() -> Result<(), Error> {
         log_err!("cannot build the empty target (\"\").\n");
         process::exit(EXIT_INVALID_TARGET);
     }
+    // (a newline, a byte sequence that is not UTF-8: no target can have such a name -- the
+    // other commands say so; this one went on and failed an assertion or an unwrap)
+    if let Err(e) = redo::RedoPath::from_os_str(&want) {
+        log_err!("{}\n", e);
+        process::exit(EXIT_INVALID_TARGET);
+    }
     let cwd = env::current_dir()?;
     let want = redo::abs_path(&cwd, Path::new(&want));
     // Look where the builder looks: it names a target through the symbolic links in its
@@ -62,6 +68,6 @@ pub(crate) fn run() -> Result<(), Error> {
 
     Err(anyhow!(
         "no appropriate dofile found for {}",
-        env::args().nth(1).unwrap()
+        env::args_os().nth(1).unwrap().to_string_lossy()
     ))
 }
